@@ -272,7 +272,10 @@ func (s *Stack) nestedPathGetSet(env *Zlisp, dotpaths []string, setVal *Sexp) (S
 				return SexpNull, err
 			}
 			//P("\n found hash in x at i=%d, looping to next i\n", i)
-			return x.nestedPathGetSet(env, dotpaths[1:], setVal)
+			// hand the hash the rest of the path after *this* element
+			// (not after the first one: with a nested package in front,
+			// p.Inner.H.a looked up 'H' in H itself and failed).
+			return x.nestedPathGetSet(env, dotpaths[i+1:], setVal)
 		case *Stack:
 			curStack = x
 		default:
